@@ -178,7 +178,6 @@ def hasFlag (sp : SpanM) (f : Nat) : Bool := (sp.flags / f) % 2 == 1
 def reasonOfSpan (sp : SpanM) : Option String :=
   if sp.site == "D" || sp.site == "format" then some "unranged-commodity-site"
   else if sp.site == "payee" && hasFlag sp 8 then some "payee-range-estimate"
-  else if hasFlag sp 4 then some "text-commodity-trailing-blank"
   else none
 
 def spanLt (a b : Span) : Bool :=
